@@ -80,6 +80,21 @@ func raceC11(out *bufio.Writer, st *Stats, r *Rng, tier string) {
 		// time must still be different buffers)
 		runtime.GOMAXPROCS(c.procs)
 		runC11(out, st, r, kinds[ci%len(kinds)], r.Range(1, 3), 0, 0, c.G, c.M/2+1, c.procs, ci%2 == 0)
+		// large buffers (thousands of samples and more): a size-dependent path of the allocator - a pinned or
+		// cached big buffer, a different free list above some threshold - is never entered by the small pools above
+		if c.procs >= 2 {
+			bigs := [][2]int{{1, 4096}, {2, 2048}, {2, 4100}, {1, 5000}, {3, 1366}, {1, 8192}}
+			if tier == "thorough" {
+				bigs = append(bigs, [2]int{1, 70000}, [2]int{2, 33000})
+			}
+			big := bigs[(ci+int(r.Next()%2)*3)%len(bigs)]
+			M := c.M/8 + 10
+			if big[0]*big[1] > 20000 {
+				M = 12
+			}
+			runtime.GOMAXPROCS(c.procs)
+			runC11(out, st, r, kinds[(ci+3)%len(kinds)], big[0], r.Range(0, 2), big[1], c.G, M, c.procs, ci%2 == 1)
+		}
 	}
 	runtime.GOMAXPROCS(runtime.NumCPU())
 }
